@@ -245,9 +245,15 @@ def prove(pc, goal, timeout_ms, cross=False, light=False, inputs=None):
     if isinstance(goal, bool) and goal:
         return 'discharged', 'eval', 0.0, None, ''
     g = z3.BoolVal(False) if isinstance(goal, bool) else goal
+    # non-linear goals: nlsat spends about 8x more wall time per resource unit than the linear engines the budget was calibrated
+    # on, and it ignores the wall-clock limit - so its in-process budgets are scaled down (a 30 s nominal attempt would otherwise run
+    # for minutes, and for an hour on a loaded machine); the fresh-process stages (hard kill) carry these obligations
+    nl = _nonlinear(g)
+    RL = RLIMIT_PER_MS // 8 if nl else RLIMIT_PER_MS
+
     def attempt(ms, wall=None):
         so_ = z3.Solver()
-        so_.set('rlimit', int(ms * RLIMIT_PER_MS))      # deterministic budget (see core.oneshot); wall clock = safety net
+        so_.set('rlimit', int(ms * RL))      # deterministic budget (see core.oneshot); wall clock = safety net
         so_.set('timeout', int(wall or ms * 10))
         so_.add(*pc)
         so_.add(z3.Not(g))
@@ -260,11 +266,11 @@ def prove(pc, goal, timeout_ms, cross=False, light=False, inputs=None):
     #     edges, ...) are what makes the non-linear clauses of C15 / C13 unstable (0.3 s ... minutes for one and the same text);
     #  3. the 4 s attempt, the fresh process, the cheap counter-model searches, the full budget, retry, external solvers.
     cli_slice_done = False
-    if _nonlinear(g):
+    if nl:
         # 0. a non-linear goal goes to a FRESH solver process first, on its relevant hypotheses: nlsat inside the long-lived
         #    exploration process was seen to ignore its time limits (one text: 0.3 s fresh, 60 s in process)
         sl0 = next(iter(relevant_slices(pc, g, 1)), (1, None))[1]
-        for hyp, tag, wall in ((sl0, 'fresh process, relevant hypotheses, depth 1', 3), (pc, 'fresh process', 4)):
+        for hyp, tag, wall in ((sl0, 'fresh process, relevant hypotheses, depth 1', 8), (pc, 'fresh process', 8)):
             if hyp is None:
                 continue
             cli_slice_done = True
@@ -278,7 +284,7 @@ def prove(pc, goal, timeout_ms, cross=False, light=False, inputs=None):
     if r == z3.unknown:
         for depth, sl in relevant_slices(pc, g, 2):
             so_ = z3.Solver()
-            so_.set('rlimit', int(2000 * RLIMIT_PER_MS))
+            so_.set('rlimit', int(2000 * RL))
             so_.set('timeout', 3000)
             so_.add(*sl)
             so_.add(z3.Not(g))
@@ -317,7 +323,7 @@ def prove(pc, goal, timeout_ms, cross=False, light=False, inputs=None):
             return status, backend, dt, model, reason
         # a time-out under load must not flip a verdict: one more one-shot attempt with a 4x budget and another seed
         so2 = z3.Solver()
-        so2.set('rlimit', int(timeout_ms * 4 * RLIMIT_PER_MS))
+        so2.set('rlimit', int(timeout_ms * 4 * RL))
         so2.set('timeout', timeout_ms * 40)
         so2.set('random_seed', 7)
         so2.add(*pc)
